@@ -9,7 +9,7 @@ import JsonV.Props.C10Glue
 
 namespace JsonV.Lemmas.CanonIntCodec
 open JsonV JsonV.Canon JsonV.Model.Number JsonV.Spec.Ecma
-open JsonV.Fmt hiding strOK respell
+open JsonV.Fmt
 open JsonV.Lemmas.NumInt JsonV.Lemmas.NumFloat JsonV.Lemmas.NumParse JsonV.Lemmas.CanonAtom JsonV.Props.C10Glue
 
 /-! ### decimal digits: `formatUint ∘ bytesVal` is the identity on canonical decimals -/
